@@ -108,6 +108,12 @@ def cells(live=None, prefix="exactpack"):
             else:
                 out[path] = canon(val)
     out["numpy:geterr"] = canon(np.geterr())
+    # interpreter-wide switches a library call may leave behind: the warnings filter list (an 'error' filter turns another
+    # solver's RuntimeWarning into an exception) and numpy's print options
+    import warnings
+    out["warnings:filters"] = canon([(f[0], str(f[1]), getattr(f[2], "__name__", str(f[2])), str(f[3]), f[4]) for f in warnings.filters])
+    po = np.get_printoptions()
+    out["numpy:printoptions"] = canon({k: (v if not callable(v) else "callable") for k, v in po.items() if k != "formatter"})
     for slot, obj in sorted((live or {}).items()):
         d = getattr(obj, "__dict__", {})
         for an, av in sorted(d.items()):
